@@ -685,8 +685,11 @@ static URI_INLINE int URI_FUNC(NormalizeSyntaxEngine)(URI_TYPE(Uri) * uri,
 		}
 	} else if (inMask & URI_NORMALIZE_PATH) {
 		URI_TYPE(PathSegment) * walker;
+		/* NOTE: A URI with a host is never a relative-path reference
+		 *       (its .absolutePath is always URI_FALSE) */
 		const UriBool relative = ((uri->scheme.first == NULL)
-				&& !uri->absolutePath) ? URI_TRUE : URI_FALSE;
+				&& !uri->absolutePath
+				&& !URI_FUNC(IsHostSet)(uri)) ? URI_TRUE : URI_FALSE;
 
 		/* Fix percent-encoding for each segment */
 		walker = uri->pathHead;
